@@ -81,8 +81,8 @@ CHECKS = {
         tech="exhaustive enumeration of the documented device tables and parameter triples executed on the implementation, oracle = transcribed documentation tables plus before/after snapshots",
         ref="DESIGN.md 2/C15"),
     "C16": dict(
-        text="depth-3 hierarchies with shared sub-modules, scalar and bus nets, internal nets at every level and primitive / external-module leaves at every level, over every assignment of each instance port to a same-width signal in scope (2 x 64 x 64, 1/4 in quick), with adversarial root-level signal names equal to flatten()'s path names; flatten(m) must contain only leaves, one per leaf device of the reference semantics, keep m's ports, and export exactly the reference leaf-level partition - or raise (only allowed for colliding names and for slices / concats / arrays)",
-        note="instance names are not adversarial (the comparison maps reference paths to ':'-joined names)",
+        text="depth-3 hierarchies with shared sub-modules, scalar and bus nets, internal nets at every level and primitive / external-module leaves at every level, over every assignment of each instance port to a same-width signal in scope (2 x 64 x 64, 1/4 in quick), with adversarial root-level signal names equal to flatten()'s path names; flatten(m) must contain only leaves, one per leaf device of the reference semantics, keep m's ports, and export exactly the reference leaf-level partition - or raise (only allowed for colliding names and for slices / concats / arrays); plus a cross-family leg in which every design of the C01 families (expression trees, port references, no-connects, arrays, bundles, pairs, hierarchies; every 3rd in quick) is flattened from a fresh build and compared with its own hierarchical export (which C01 compares with the reference semantics), raise-or-right; naming slips and a top-level leaf named like a nested path-name",
+        note="instance names are adversarial only in the dedicated own-leaf scenario (the comparison maps reference paths to ':'-joined names)",
         tech="exhaustive enumeration of bounded design programs executed on the implementation, compared with a reference semantics",
         ref="DESIGN.md 2/C16"),
     "C17": dict(
